@@ -11,7 +11,14 @@
                                passed, for a fresh one otherwise), then the copy of the solid (desired ID [d] for a
                                world brush, fresh for the solids of an entity), the entity last (desired ID [d]);
     - [TRemove t], [TReAdd t]  [.remove()] / [add_ent] / [add_brush]: every part leaves / re-enters the map;
-    - [TDestroy t]             the last reference is dropped: the destructor of every part runs.
+    - [TDestroy t]             the last reference of a removed object is dropped: the destructor of every part runs;
+    - [TCreateSpawn m]         the worldspawn entity made by [VMF()]: an entity that is not in the map's entity list;
+    - [TCollapse s m]          [instancing.collapse_one(maps[m], inst, InstanceFile(maps[s]))]: every world brush in
+                               [maps[s].brushes], in list order, then every entity in [maps[s].entities], in list
+                               order, is copied into map [m] ([copy(vmf_file=maps[m])], fresh desired ID) and added to
+                               it.  Which objects those are is decided here, from the model's own lists: [torder] is
+                               the order in which the listed top-level objects were (last) added to their maps
+                               (hidden objects, which collapse_one skips, are not modelled).
     The state is the three single-kind worlds of SM/IdWorld.v plus, for every top-level object, the indexes of its
     parts in those worlds.  Parameters: the release / copy flags of the three kinds (read from the source).
     Executable definitions only; proofs are in SM/IdNestProofs.v. *)
@@ -20,9 +27,9 @@ From Coq Require Import ZArith.
 From SV Require Import SM.IdMan SM.IdWorld.
 Open Scope Z_scope.
 
-Record ttop := { tt_ent : option nat; tt_solids : list (nat * list nat) }.
-Record tworld := { tE : wworld; tS : wworld; tF : wworld; ttops : list ttop }.
-Definition tw0 : tworld := {| tE := ww0; tS := ww0; tF := ww0; ttops := [] |}.
+Record ttop := { tt_ent : option nat; tt_solids : list (nat * list nat); tt_home : nat; tt_listed : bool }.
+Record tworld := { tE : wworld; tS : wworld; tF : wworld; ttops : list ttop; torder : list nat }.
+Definition tw0 : tworld := {| tE := ww0; tS := ww0; tF := ww0; ttops := []; torder := [] |}.
 
 Inductive tev :=
 | TCreateEnt (m : nat) (d : Z) (sds : list (Z * list Z))
@@ -30,7 +37,9 @@ Inductive tev :=
 | TCopy (t : nat) (m : nat) (d : Z) (explicit : bool)
 | TRemove (t : nat)
 | TReAdd (t : nat)
-| TDestroy (t : nat).
+| TDestroy (t : nat)
+| TCreateSpawn (m : nat)
+| TCollapse (s : nat) (m : nat).
 
 (** Index the next object of a world gets. *)
 Definition nobj (w : wworld) : nat := length (wobjs w).
@@ -58,41 +67,78 @@ Fixpoint copy_solids (wF : wworld) (m : nat) (explicit : bool) (ds : Z) (src : l
        (nS, seq nF (length fis)) :: parts)
   end.
 
+Definition tset_listed (t : ttop) (b : bool) : ttop :=
+  {| tt_ent := tt_ent t; tt_solids := tt_solids t; tt_home := tt_home t; tt_listed := b |}.
+
+(** The listed top-level objects of map [s] that are world brushes ([ents = false]) / entities ([ents = true]), in the
+    order of the map's list. *)
+Definition tsel (w : tworld) (s : nat) (ents : bool) (t : nat) : bool :=
+  match ttops w !! t with
+  | Some top => Nat.eqb (tt_home top) s && tt_listed top && Bool.eqb (bool_decide (is_Some (tt_ent top))) ents
+  | None => false
+  end.
+Definition tlisted_of (w : tworld) (s : nat) (ents : bool) : list nat :=
+  filter (λ t, tsel w s ents t = true) (torder w).
+
 Section nest.
   Variables rorE rorS rorF ctdE ctdS ctdF : bool.
 
-  Definition tapply (w : tworld) (eE eS eF : list wev) (tops : list ttop) : tworld :=
+  Definition tapply (w : tworld) (eE eS eF : list wev) (tops : list ttop) (order : list nat) : tworld :=
     {| tE := wrun_from rorE ctdE (tE w) eE; tS := wrun_from rorS ctdS (tS w) eS;
-       tF := wrun_from rorF ctdF (tF w) eF; ttops := tops |}.
+       tF := wrun_from rorF ctdF (tF w) eF; ttops := tops; torder := order |}.
 
   (** The same single event on every part of a top-level object. *)
-  Definition tparts (mk : nat → wev) (w : tworld) (t : nat) : tworld :=
+  Definition tparts (mk : nat → wev) (w : tworld) (top : ttop) (tops : list ttop) (order : list nat) : tworld :=
+    tapply w (from_option (λ e, [mk e]) [] (tt_ent top)) (mk <$> (tt_solids top).*1)
+           (mk <$> concat (tt_solids top).*2) tops order.
+
+  (** A new top-level object is listed in its map, at the end of the list. *)
+  Definition tnew (w : tworld) (top : ttop) : list ttop * list nat :=
+    (ttops w ++ [top], if tt_listed top then torder w ++ [length (ttops w)] else torder w).
+
+  Definition tcreate (w : tworld) (m : nat) (ent : option Z) (sds : list (Z * list Z)) (listed : bool) : tworld :=
+    let '(eS, eF, parts) := new_solids m sds (nobj (tS w)) (nobj (tF w)) in
+    let '(tops, order) := tnew w {| tt_ent := (λ _, nobj (tE w)) <$> ent; tt_solids := parts; tt_home := m; tt_listed := listed |} in
+    tapply w (from_option (λ d, [WCreate m d]) [] ent) eS eF tops order.
+
+  Definition tcopy (w : tworld) (t m : nat) (d : Z) (explicit : bool) : tworld :=
     match ttops w !! t with
-    | Some top => tapply w (from_option (λ e, [mk e]) [] (tt_ent top)) (mk <$> (tt_solids top).*1)
-                         (mk <$> concat (tt_solids top).*2) (ttops w)
+    | Some top =>
+        let ds := match tt_ent top with Some _ => -1 | None => d end in
+        let '(eS, eF, parts) := copy_solids (tF w) m explicit ds (tt_solids top) (nobj (tS w)) (nobj (tF w)) in
+        let '(tops, order) := tnew w {| tt_ent := (λ _, nobj (tE w)) <$> tt_ent top; tt_solids := parts;
+                                        tt_home := m; tt_listed := true |} in
+        tapply w (from_option (λ e, [WCopy e m d]) [] (tt_ent top)) eS eF tops order
     | None => w
     end.
 
   Definition tstep (w : tworld) (e : tev) : tworld :=
     match e with
-    | TCreateEnt m d sds =>
-        let '(eS, eF, parts) := new_solids m sds (nobj (tS w)) (nobj (tF w)) in
-        tapply w [WCreate m d] eS eF (ttops w ++ [{| tt_ent := Some (nobj (tE w)); tt_solids := parts |}])
-    | TCreateBrush m sd =>
-        let '(eS, eF, parts) := new_solids m [sd] (nobj (tS w)) (nobj (tF w)) in
-        tapply w [] eS eF (ttops w ++ [{| tt_ent := None; tt_solids := parts |}])
-    | TCopy t m d explicit =>
+    | TCreateEnt m d sds => tcreate w m (Some d) sds true
+    | TCreateBrush m sd => tcreate w m None [sd] true
+    | TCreateSpawn m => tcreate w m (Some (-1)) [] false
+    | TCopy t m d explicit => tcopy w t m d explicit
+    | TRemove t =>
         match ttops w !! t with
-        | Some top =>
-            let ds := match tt_ent top with Some _ => -1 | None => d end in
-            let '(eS, eF, parts) := copy_solids (tF w) m explicit ds (tt_solids top) (nobj (tS w)) (nobj (tF w)) in
-            tapply w (from_option (λ e, [WCopy e m d]) [] (tt_ent top)) eS eF
-                   (ttops w ++ [{| tt_ent := (λ _, nobj (tE w)) <$> tt_ent top; tt_solids := parts |}])
+        | Some top => if tt_listed top
+                      then tparts WRemove w top (<[t := tset_listed top false]> (ttops w)) (filter (λ x, x ≠ t) (torder w))
+                      else w
         | None => w
         end
-    | TRemove t => tparts WRemove w t
-    | TReAdd t => tparts WReAdd w t
-    | TDestroy t => tparts WDestroy w t
+    | TReAdd t =>
+        match ttops w !! t with
+        | Some top => if tt_listed top then w
+                      else tparts WReAdd w top (<[t := tset_listed top true]> (ttops w)) (torder w ++ [t])
+        | None => w
+        end
+    | TDestroy t =>
+        match ttops w !! t with
+        | Some top => if tt_listed top then w else tparts WDestroy w top (ttops w) (torder w)
+        | None => w
+        end
+    | TCollapse s m =>
+        if decide (s = m) then w
+        else fold_left (λ w t, tcopy w t m (-1) true) (tlisted_of w s false ++ tlisted_of w s true) w
     end.
 
   Definition trun (es : list tev) : tworld := fold_left tstep es tw0.
